@@ -253,7 +253,106 @@ func strEq(x, y value) value {
 			return acc
 		}
 	}
+	if v, ok := strEqWalk(a, b); ok {
+		return v
+	}
 	return simplifyBool(symBool{tEq(strTerm(x), strTerm(y))})
+}
+
+// strEqWalk decides equality of two ropes whose atoms are all delimited integer atoms (a non-digit
+// literal byte, or the end of the rope, on both sides of each atom) by walking them in lock step: an atom
+// facing an atom gives a value equation, an atom facing literal text must equal the maximal run of
+// digit bytes found there (the byte after the run is a non-digit on both sides, so the split is forced).
+// ok=false: shape not covered, the caller falls back to the string theory.
+func strEqWalk(a, b symStr) (value, bool) {
+	if !allIntAtomsDelimited(a) || !allIntAtomsDelimited(b) {
+		return nil, false
+	}
+	type cur struct {
+		s   symStr
+		i   int // part index
+		off int // offset inside a literal part
+	}
+	ca, cb := &cur{s: a}, &cur{s: b}
+	skip := func(c *cur) {
+		for c.i < len(c.s.parts) && c.s.parts[c.i].atom == nil && c.off >= len(c.s.parts[c.i].lit) {
+			c.i++
+			c.off = 0
+		}
+	}
+	var acc value = true
+	// digits takes the maximal run of digit bytes at the cursor of a literal
+	digits := func(c *cur) string {
+		lit := c.s.parts[c.i].lit
+		j := c.off
+		for j < len(lit) && isDigitByte(lit[j]) {
+			j++
+		}
+		r := lit[c.off:j]
+		c.off = j
+		return r
+	}
+	for {
+		skip(ca)
+		skip(cb)
+		ea, eb := ca.i >= len(a.parts), cb.i >= len(b.parts)
+		if ea || eb {
+			if ea && eb {
+				return acc, true
+			}
+			return false, true // one side has content left (an integer atom renders at least one byte)
+		}
+		pa, pb := a.parts[ca.i], b.parts[cb.i]
+		switch {
+		case pa.atom != nil && pb.atom != nil:
+			if pa.atom.signed != pb.atom.signed {
+				return nil, false
+			}
+			if pa.atom != pb.atom && pa.atom.t.s != pb.atom.t.s {
+				acc = andV(acc, simplifyBool(symBool{tEq(tResize(pa.atom.t, pa.atom.signed, 64), tResize(pb.atom.t, pb.atom.signed, 64))}))
+			}
+			ca.i++
+			cb.i++
+		case pa.atom != nil || pb.atom != nil:
+			at, lc := pa.atom, cb
+			if pa.atom == nil {
+				at, lc = pb.atom, ca
+			}
+			run := digits(lc)
+			n, ok := parseCanonicalInt(run, at.signed, at.t.bits)
+			if !ok {
+				return false, true // no digits there, or a non-canonical rendering
+			}
+			acc = andV(acc, simplifyBool(symBool{tEq(at.t, bvConst(n, at.t.bits))}))
+			if pa.atom != nil {
+				ca.i++
+			} else {
+				cb.i++
+			}
+		default:
+			la, lb := pa.lit[ca.off:], pb.lit[cb.off:]
+			n := len(la)
+			if len(lb) < n {
+				n = len(lb)
+			}
+			// a literal digit run that continues into the other side's atom cannot be decided bytewise:
+			// only compare up to the point where either literal ends, and require equality there
+			if la[:n] != lb[:n] {
+				return false, true
+			}
+			// if one literal ends inside a digit run and the other side continues with an atom, the shapes
+			// are ambiguous (e.g. "12" + atom vs "1" + atom): not covered
+			if n > 0 && isDigitByte(la[n-1]) && (n == len(la) || n == len(lb)) {
+				endA := n == len(la) && ca.i+1 < len(a.parts) && a.parts[ca.i+1].atom != nil
+				endB := n == len(lb) && cb.i+1 < len(b.parts) && b.parts[cb.i+1].atom != nil
+				if endA || endB {
+					return nil, false
+				}
+			}
+			ca.off += n
+			cb.off += n
+		}
+	}
 }
 
 func isDigitByte(c byte) bool { return c >= '0' && c <= '9' || c == '-' }
@@ -321,6 +420,11 @@ func ropeEqLit(a symStr, lit string) value {
 		t := tEq(at.t, strConst(lit))
 		t.eqAtom, t.eqLit = at, lit
 		return symBool{t}
+	}
+	if lit != "" {
+		if v, ok := strEqWalk(symStr{parts}, symStr{[]strPart{{lit: lit}}}); ok {
+			return v
+		}
 	}
 	return simplifyBool(symBool{tEq(strTerm(symStr{parts}), strConst(lit))})
 }
